@@ -187,10 +187,14 @@ func c13VersionStream(srvDotu bool, ver string, srvMsize, cliMsize uint32) Scena
 		for i := 0; i < 3; i++ {
 			stream = append(stream, wire.Encode(tattach(uint16(10+i), uint32(i), wire.NOFID, names[i], ids[i], dotu), dotu)...)
 		}
+		// a fourth attach the implementation refuses with a text longer than a small client msize: the
+		// Rerror has to fit the msize just negotiated, however the stream was cut
+		stream = append(stream, wire.Encode(tattach(13, 3, wire.NOFID, names[0], ids[0], dotu), dotu)...)
 		run := func(cuts []int, chunk int) string {
 			var got string
 			body := func() {
 				fs := NewFS()
+				fs.Script[reqKey{0, 13, 0}] = &Action{Err: "E" + strings.Repeat("e", 600)}
 				h := NewSrvH(fs, SrvOpt{Msize: srvMsize, Dotu: srvDotu})
 				cl := h.Connect()
 				cl.Dotu = dotu
@@ -244,7 +248,7 @@ func c13VersionStream(srvDotu bool, ver string, srvMsize, cliMsize uint32) Scena
 		}
 		ref := run(nil, 1)
 		res.Evals++
-		if !strings.Contains(ref, "closed=false") || strings.Count(ref, "Attach/") != 3 {
+		if !strings.Contains(ref, "closed=false") || strings.Count(ref, "Attach/") != 4 {
 			res.Findings = append(res.Findings, Finding{Sig: "C13/version-stream/byte-at-a-time-run-failed", Msg: name + ": " + ref})
 			return res
 		}
